@@ -204,6 +204,13 @@ func (w *world) config(f []string) bool {
 		}
 		w.store2Wallets[unhexStr(f[1])] = true
 		w.noCache = true
+	case "stalelock":
+		// the n-th caller that finds an account LOCKED is held for (n-1)*<ms> before it learns so (a goroutine descheduled
+		// between reading the lock state and acting on it): by then others may have unlocked the account
+		ms, _ := strconv.Atoi(f[1])
+		staleLockMs.Store(int64(ms))
+		staleLockCount.Store(0)
+		w.noCache = true
 	case "pruning":
 		w.pruning = true // server.rules.periodic-pruning: true (the store's maintenance goroutine runs)
 	case "lockwarm":
